@@ -1,3 +1,182 @@
 import FiberModel.DriverUtil
--- stub driver for C15; replaced when the property's model lands
-def main : IO Unit := pure ()
+import FiberModel.C15.Spec
+/-
+Driver for C15. Case fields (after the id):
+  source(cookie|header|query) storage(mem|inj) idle abs ops obs
+see harness/cmd/c15/main.go for the op, script and observation syntax.
+-/
+open B DriverUtil C15
+
+def idGen (n : Nat) : Bytes := b "id" ++ natToDec (n + 1)
+
+def hx (s : String) : Except String Bytes :=
+  match fromHex s with
+  | some v => pure v
+  | none => throw s!"outside-domain: bad hex {s}"
+
+def idSafe (s : Bytes) : Bool := s.all fun c => isAlpha c || isDigit c || c == 95 || c == 45
+
+def hxSafe (s : String) : Except String Bytes := do
+  let v ← hx s
+  if v = [] || !idSafe v then throw "outside-domain: identifier alphabet"
+  pure v
+
+def parseAct (s : String) : Except String Act := do
+  if s.isEmpty then throw "outside-domain: empty action"
+  let arg := (s.drop 1).toString
+  match s.front with
+  | 'G' => if arg.isEmpty then pure .storeGet else throw "outside-domain: action"
+  | 'I' => if arg.isEmpty then pure .info else throw "outside-domain: action"
+  | 'K' => if arg.isEmpty then pure .keys else throw "outside-domain: action"
+  | 'D' => if arg.isEmpty then pure .destroy else throw "outside-domain: action"
+  | 'R' => if arg.isEmpty then pure .regenerate else throw "outside-domain: action"
+  | 'X' => if arg.isEmpty then pure .reset else throw "outside-domain: action"
+  | 'S' => if arg.isEmpty then pure .save else throw "outside-domain: action"
+  | 'L' => if arg.isEmpty then pure .release else throw "outside-domain: action"
+  | 'W' => if arg.isEmpty then pure .storeReset else throw "outside-domain: action"
+  | 'B' => if arg == "-" then pure (.byID []) else do pure (.byID (← hxSafe arg))
+  | 'Z' => if arg == "-" then pure (.storeDelete []) else do pure (.storeDelete (← hxSafe arg))
+  | 'g' => do pure (.get (← hxSafe arg))
+  | 'd' => do pure (.del (← hxSafe arg))
+  | 's' =>
+    match arg.splitOn "=" with
+    | [k, v] => do pure (.set (← hxSafe k) (← hxSafe v))
+    | _ => throw "outside-domain: set action"
+  | 'T' =>
+    match arg.toInt? with
+    | some n => if n < -5 || n > 100000 then throw "outside-domain: idle timeout" else pure (.idle n)
+    | none => throw "outside-domain: idle timeout"
+  | _ => throw "outside-domain: unknown action"
+
+def parseOp (s : String) : Except String Op := do
+  match s.splitOn ":" with
+  | ["a", n] =>
+    match n.toNat? with
+    | some d => if d > 100000 then throw "outside-domain: advance" else pure (.adv d)
+    | none => throw "outside-domain: advance"
+  | ["r", api, ck, hd, qr, script] =>
+    if api != "m" && api != "s" then throw "outside-domain: api"
+    let ck ← hx ck; let hd ← hx hd; let qr ← hx qr
+    if !(idSafe ck && idSafe hd && idSafe qr) then throw "outside-domain: identifier alphabet"
+    let acts ← (if script == "-" then pure [] else (script.splitOn ".").mapM parseAct)
+    pure (.req { viaMw := api == "m", ck := ck, hd := hd, qr := qr, script := acts })
+  | _ => throw "outside-domain: malformed op"
+
+def insertSorted (x : String) : List String → List String
+  | [] => [x]
+  | y :: ys => if x < y then x :: y :: ys else y :: insertSorted x ys
+
+def sortStrings (l : List String) : List String := l.foldr insertSorted []
+
+def plusList (l : List Bytes) : String :=
+  if l.isEmpty then "-" else "+".intercalate (l.map toHexField)
+
+def renderAObs : AObs → String
+  | .dash => "-"
+  | .bang => "!"
+  | .ok => "ok"
+  | .err .empty => "empty"
+  | .err .notFound => "notfound"
+  | .err .loaded => "loaded"
+  | .info id fr => s!"i{toHexField id}/{if fr then 1 else 0}"
+  | .val none => "vnil"
+  | .val (some v) => s!"v{toHexField v}"
+  | .keys ks a => "k" ++ "+".intercalate (sortStrings (ks.map toHexField)) ++ (if a then "#" else "")
+
+def renderKeys (st : St) : String :=
+  let ks := (st.store.filter fun e => e.2.live st.now).map fun e => toHexField e.1
+  if ks.isEmpty then "-" else "+".intercalate (sortStrings ks)
+
+def renderResp (st : St) (r : Resp) : String :=
+  let acts := if r.acts.isEmpty then "noacts" else ".".intercalate (r.acts.map renderAObs)
+  let ck := match r.outCk with | none => "cnone" | some none => "cexp" | some (some v) => "c" ++ toHexField v
+  let hd := match r.outHd with | none => "hnone" | some v => "h" ++ toHexField v
+  s!"{acts},{ck},{hd},{plusList r.gens},{renderKeys st}"
+
+def runModel (cfg : Cfg) : St → List Op → List String
+  | _, [] => []
+  | st, o :: os =>
+    match o with
+    | .adv d => "-" :: runModel cfg { st with now := st.now + d } os
+    | .req q =>
+      let (st', r) := handle cfg idGen st q
+      renderResp st' r :: runModel cfg st' os
+
+def parseAObs (s : String) : Except String AObs := do
+  if s == "-" then return .dash
+  if s == "!" then return .bang
+  if s == "ok" then return .ok
+  if s == "empty" then return .err .empty
+  if s == "notfound" then return .err .notFound
+  if s == "loaded" then return .err .loaded
+  if s == "vnil" then return .val none
+  match s.front with
+  | 'v' => do pure (.val (some (← hx (s.drop 1).toString)))
+  | 'i' =>
+    match ((s.drop 1).toString).splitOn "/" with
+    | [id, fr] => do pure (.info (← hx id) (fr == "1"))
+    | _ => throw "bad info observation"
+  | 'k' =>
+    let body := (s.drop 1).toString
+    let (body, a) := if body.endsWith "#" then ((body.dropEnd 1).toString, true) else (body, false)
+    let ks ← (if body.isEmpty then pure [] else (body.splitOn "+").mapM hx)
+    pure (.keys ks a)
+  | _ => throw s!"bad action observation {s}"
+
+def parsePlus (s : String) : Except String (List Bytes) :=
+  if s == "-" then pure [] else (s.splitOn "+").mapM hx
+
+def parseObs (s : String) : Except String Obs := do
+  match s.splitOn "," with
+  | [acts, ck, hd, gens, keys] =>
+    let (acts, status) := match acts.splitOn "~" with
+      | [a, st] => (a, st.toNat?.getD 0)
+      | _ => (acts, 200)
+    let al ← (if acts == "noacts" then pure [] else (acts.splitOn ".").mapM parseAObs)
+    let ckv ← (if ck == "cnone" then pure none else if ck == "cexp" then pure (some none)
+               else do pure (some (some (← hx (ck.drop 1).toString))))
+    let hdv ← (if hd == "hnone" then pure none else do pure (some (← hx (hd.drop 1).toString)))
+    pure { acts := al, outCk := ckv, outHd := hdv, gens := ← parsePlus gens, keys := ← parsePlus keys, status := status }
+  | _ => throw "bad observation"
+
+def panicObs : Obs := { acts := [], outCk := none, outHd := none, gens := [], keys := [], status := 0 }
+
+def sourceOf : String → Option Source
+  | "cookie" => some .cookie | "header" => some .header | "query" => some .query | _ => none
+
+def opTags (ops : List Op) : List String :=
+  let reqs := ops.filterMap fun o => match o with | .req q => some q | _ => none
+  let has (p : Act → Bool) := reqs.any fun q => q.script.any p
+  (if reqs.any (·.viaMw) then ["mw"] else []) ++ (if reqs.any (!·.viaMw) then ["store-api"] else []) ++
+  (if has (· == .destroy) then ["destroy"] else []) ++ (if has (· == .regenerate) then ["regenerate"] else []) ++
+  (if has (· == .reset) then ["reset"] else []) ++
+  (if ops.any (fun o => match o with | .adv _ => true | _ => false) then ["advance"] else [])
+
+def handleCase (f : List String) : Except String Verdict := do
+  match f with
+  | [id, src, sto, idle, abs, ops, impl] =>
+    let some source := sourceOf src | throw "outside-domain: source"
+    if sto != "mem" && sto != "inj" then throw "outside-domain: storage"
+    let some idle := idle.toNat? | throw "outside-domain: idle"
+    let some abs := abs.toNat? | throw "outside-domain: abs"
+    if idle = 0 || idle > 3600 || abs > 100000 || (abs > 0 && abs < idle) then throw "outside-domain: timeouts"
+    let cfg : Cfg := { source := source, idle := idle, abs := abs }
+    let opl ← (if ops == "-" then pure [] else (ops.splitOn ";").mapM parseOp)
+    let mo := runModel cfg {} opl
+    let modelObs := if mo.isEmpty then "-" else ";".intercalate mo
+    if impl == "panic" then
+      return { id := id, modelObs := modelObs, implObs := impl, spec := some "constructor-panicked", tags := [src, sto] }
+    let obsl ← (if impl == "-" then pure [] else (impl.splitOn ";").mapM fun s =>
+      if s == "-" then pure none else if s == "panic" then pure (some panicObs) else (parseObs s).map some)
+    let spec := if obsl.length != opl.length then some "observation-count" else specRun cfg specInit opl obsl
+    match spec with
+    | some e => if e.startsWith "outside-domain" then throw e
+    | none => pure ()
+    let sawData := obsl.any fun o => match o with
+      | some o => o.acts.any fun a => match a with | .val (some _) => true | _ => false
+      | none => false
+    pure { id := id, modelObs := modelObs, implObs := impl, spec := spec,
+           tags := [src, sto, if abs > 0 then "abs" else "noabs"] ++ opTags opl ++ (if sawData then ["nt-saw-saved-data"] else []) }
+  | _ => throw s!"outside-domain: expected 7 fields, got {f.length}"
+
+def main : IO Unit := run handleCase
